@@ -1,0 +1,24 @@
+//go:build verif
+
+package ports
+
+import "sort"
+
+// VerifDump returns the manager's accounting: free ports, used ports with owner, reserved ports by name.
+func (pm *Manager) VerifDump() (free []int, used map[int]string, reserved map[string]int) {
+	pm.mu.Lock()
+	defer pm.mu.Unlock()
+	used = map[int]string{}
+	reserved = map[string]int{}
+	for p := range pm.freePorts {
+		free = append(free, p)
+	}
+	sort.Ints(free)
+	for p, c := range pm.usedPorts {
+		used[p] = c.ProxyName
+	}
+	for n, c := range pm.reservedPorts {
+		reserved[n] = c.Port
+	}
+	return
+}
